@@ -698,6 +698,51 @@ func checkC12(c *Check) {
 		}
 	}
 
+	// R14: recovery computes a record's retry time from the smallest attempt counter in it (R10); in the running
+	// process tryDelivery computes it from the recipients that are still pending. The two agree only if the record
+	// holds counters of pending recipients alone: a recipient that leaves the list – delivered or given up – takes its
+	// counter with it. A counter left behind by a recipient delivered at its second attempt (value 1) makes a restart
+	// retry the others at the pace of a fresh message: before the time the running process had scheduled.
+	c.Rule("R14", "tryDelivery: on every way round the loop over the recipients on which the recipient is not re-queued, its attempt counter is deleted from the record (recovery minimises over the counters left – R10)", 1)
+	if r := c.need("R14", queueRel, "Queue", "tryDelivery"); r != nil {
+		msg := "undecided: no loop over the record's recipients with a re-queue found in tryDelivery"
+		for _, l := range elemLoops(info, r.FI.Decl.Body, func(e ast.Expr) bool { return isField(info, e, "QueueMetadata", "To") }) {
+			l := l
+			var requeue, deletes []Pt
+			for _, pt := range r.F.Points() {
+				nd := pt.Node()
+				if nd == nil || !posIn(l.Body, nd.Pos()) {
+					continue
+				}
+				if as, ok := nd.(*ast.AssignStmt); ok && len(as.Lhs) == 1 && len(as.Rhs) == 1 {
+					if o, args := appendTarget(info, as.Lhs[0], as.Rhs[0]); o != nil && len(args) == 1 && l.IsElem(args[0]) {
+						// the list that becomes the record's new recipient list
+						requeue = append(requeue, pt)
+					}
+				}
+				for _, call := range callsAt(nd) {
+					if id, isID := call.Fun.(*ast.Ident); isID && id.Name == "delete" && len(call.Args) == 2 && isField(info, call.Args[0], "QueueMetadata", "TriesCount") && l.IsElem(call.Args[1]) {
+						deletes = append(deletes, pt)
+					}
+				}
+			}
+			if len(requeue) == 0 {
+				continue
+			}
+			msg = ""
+			// which append is the re-queue? the one whose list is assigned to meta.To afterwards; with two candidate
+			// lists (retry / failed) every path avoiding ALL deletes must pass an append of the retry list: approximate
+			// by requiring: a path that passes no append at all passes a delete, and a path through an append that is
+			// followed by a delete is fine
+			start := r.F.LoopBodyStart(l)
+			end := r.F.IterEnd(l)
+			if path, f := r.F.Reach(Query{From: start, Inclusive: true, Target: func(q Pt) bool { return end(q) && !r.F.IsExitPt(q) }, Avoid: func(q Pt) bool { return isPt(requeue)(q) || isPt(deletes)(q) }}); f {
+				msg = "a recipient can leave the loop neither re-queued nor with its attempt counter deleted (a delivered recipient keeps the count of its earlier temporary failures): after a restart the retry time of the remaining recipients is computed from that stale, smaller counter – the retry is dispatched before the time it was scheduled for: " + r.F.Describe(path)
+			}
+		}
+		c.Hold("R14", "tryDelivery:counter-leaves-with-recipient", r.FI.Decl.Pos(), msg == "", msg)
+	}
+
 	c.Rule("R13", "dispatching a retry never removes an intact message: loading removes spool files only on the edge where a sibling file does not exist – a descriptor shortage or an I/O error while opening leaves everything in place for the next attempt or restart (C02.R9)", 2)
 	importRules(c, "C02", c02CleanupOnlyWhenGone, map[string]bool{"R9": true}, "R13")
 
